@@ -51,6 +51,7 @@ def make_modules():
     mymod.MyExc = MyExc
     mymod.NotAnException = NotAnException
     mymod.func = len
+    mymod.KeyError = type("KeyError", (Exception,), {"__module__": "mymod"})     # a custom class bearing a built-in's bare name
     lazy = types.ModuleType("lazymod")
     lazy.LazyExc = type("LazyExc", (Exception,), {"__module__": "lazymod"})
     return mymod, lazy
@@ -75,6 +76,7 @@ class MyExc(Exception):
 class NotAnException(object):
     def __init__(self, *a): log.append("NotAnException.__init__")
 mymod = types.ModuleType("mymod"); mymod.MyExc = MyExc; MyExc.__module__ = "mymod"; mymod.NotAnException = NotAnException; mymod.func = len
+mymod.KeyError = type("KeyError", (Exception,), {"__module__": "mymod"})
 sys.modules["mymod"] = mymod
 real_import = builtins.__import__
 def spy_import(name, *a, **k):
@@ -499,7 +501,8 @@ def ob_history(run, interp, warmups=1):
     switches), not to the process: two loads in a row with independent
     switches; the second is judged against its own switches only"""
     from rpyc.core import vinegar
-    RECS = [("mymod", "MyExc"), ("lazymod", "LazyExc"), ("builtins", "KeyError"), ("mymod", "NotAnException"), ("nosuchmod", "X")]
+    RECS = [("mymod", "MyExc"), ("lazymod", "LazyExc"), ("builtins", "KeyError"), ("mymod", "NotAnException"), ("nosuchmod", "X"),
+            ("mymod", "KeyError")]     # same bare name as a built-in, different module: results must not be shared between the two
 
     def ob(o):
         o.symbolic = ["%d consecutive vinegar.load calls; each has its own three switches: %d Bools" % (warmups + 1, 3 * (warmups + 1)),
@@ -547,7 +550,7 @@ def ob_history(run, interp, warmups=1):
             if r.outcome == "abort":
                 return
             n = c.notes
-            acc.inc("%s>%s" % (n["r1"][1], n["r2"][1]))
+            acc.inc("%s.%s>%s.%s" % (n["r1"] + n["r2"]))
             imp, inst, old = [s.e for s in n["sw2"]]
             mod, name = n["r2"]
             bad = None
@@ -586,7 +589,7 @@ def ob_history(run, interp, warmups=1):
                     return
                 s1 = [z3.is_true(m.eval(s.e, model_completion=True)) for s in n["sw1"]]
                 s2 = [z3.is_true(m.eval(s.e, model_completion=True)) for s in n["sw2"]]
-                sig = "history:%s>%s" % (n["r1"][1], n["r2"][1])
+                sig = "history:%s.%s>%s.%s" % (n["r1"] + n["r2"])
                 if any(v["signature"] == sig for v in o.violations):
                     return
                 run.replay(o, sig, "%s (first switches %s, second switches %s)" % (bad, s1, s2), replay_history(n["r1"], s1, n["r2"], s2))
